@@ -290,7 +290,7 @@ def check(ctx):
         ctx.ob("SIB.init-call.node-value", kinds_call["GraphNode"], "nested node evaluates on exactly its dependencies' values", ok)
     els = [r for r in ast.walk(ev) if isinstance(r, ast.Return) and eqv(r.value, "a")]
     ctx.ob("SIB.init-call.literal", ev, "anything else is a literal", bool(els))
-    ok_args = bool(find("tuple(map(_eval, self.args))", call)) or bool(find("tuple(_eval(M_a) for M_a in self.args)", call))
+    ok_args = bool(find("tuple([_eval(M_a) for M_a in self.args])", call)) or bool(find("tuple(_eval(M_a) for M_a in self.args)", call))
     ok_kw = bool(find("{k: _eval(kw) for k, kw in self.kwargs.items()}", call))
     ctx.ob("SIB.init-call.positions-call", call, "__call__ evaluates self.args and self.kwargs values", ok_args and ok_kw)
     rets = [r for r in returns(call)]
